@@ -105,3 +105,18 @@ extern "C" void h_load_formatted(void) {
         CHECK(l.size() >= 1);
     } catch (const std::exception&) { }
 }
+// opening an arbitrary byte string as a unified RESTART file: ERst(filename) indexes the report steps from the SEQNUM arrays it finds
+#include <opm/io/eclipse/ERst.hpp>
+extern "C" void h_load_rst(void) {
+    verif_memfile(NBYTES); verif_memfile_name(1, "ANY.UNRST");
+    ASSUME(verif_memfile_byte(1, 16) != 'C');
+    { unsigned b0 = verif_memfile_byte(1, 12), b1 = verif_memfile_byte(1, 13), b2 = verif_memfile_byte(1, 14), b3 = verif_memfile_byte(1, 15);
+      ASSUME((b0 & 0x80) || (b0 == 0 && b1 == 0 && b2 == 0 && b3 <= 2)); }
+    if (NBYTES > 27) { unsigned b0 = verif_memfile_byte(1, 24), b1 = verif_memfile_byte(1, 25), b2 = verif_memfile_byte(1, 26), b3 = verif_memfile_byte(1, 27);
+      ASSUME((b0 & 0x80) || (b0 == 0 && b1 == 0 && b2 == 0 && b3 <= 32)); }
+    try {
+        ERst rst(std::string("ANY.UNRST"));
+        auto steps = rst.listOfReportStepNumbers();
+        CHECK(steps.size() <= 2);
+    } catch (const std::exception&) { }
+}
